@@ -107,7 +107,7 @@ Definition jump (s : state) (pos : Z) : option state :=
 (* ---------- unloading the executing context (VM.unloadContext + the pop from vm.istack) ----------
    Slot.clearRefs on local and arguments; when the scriptContext is left, also on static.
    [ret_transfer]: RET moves the evaluation stack of a left scriptContext onto the one below (checking
-   retCount); exception unwinding just switches to the stack below (what was on the left one stays counted).
+   retCount); exception unwinding switches to the stack below and un-counts what was on the left one.
    None = the context was the last one. *)
 Definition clear_slot (sl : option (list item)) (hr : heap * Z) : heap * Z :=
   match sl with Some its => ref_remove_list (fst hr) (snd hr) its | None => hr end.
@@ -137,6 +137,9 @@ Definition unload (ret_transfer : bool) (s : state) : unload_res :=
           | None => UFault
           | Some es' =>
               let hr := clear_slot (sc_static sc) (clear_slot (f_args f) (clear_slot (f_local f) (s_heap s, s_refs s))) in
+              (* an exception leaves the script: what is still on its own evaluation stack is un-counted (Stack.Clear; the
+                 repair F57 - vm.go as found just drops the stack and keeps the counts) *)
+              let hr := if negb ret_transfer && negb (sc_shared sc) then clear_slot (Some (sc_es sc)) hr else hr in
               UNext (mkState f' (mkScript (sc_prog sc') (sc_sid sc') (sc_static sc') es' (sc_shared sc'))
                              fs' outer' (fst hr) (snd hr) (s_exc s) (s_gas s) (s_limit s) (s_base s))
           end
